@@ -99,6 +99,24 @@ pub trait Scenario: Sync + Send {
     }
 }
 
+/// Static names for "operation a directly followed by operation b" reach counters (op-pair coverage).
+pub struct PairTable {
+    pub ops: &'static [&'static str],
+    names: std::sync::OnceLock<Vec<&'static str>>,
+}
+impl PairTable {
+    pub const fn new(ops: &'static [&'static str]) -> Self {
+        PairTable { ops, names: std::sync::OnceLock::new() }
+    }
+    pub fn idx(&self, op: &str) -> Option<usize> {
+        self.ops.iter().position(|o| *o == op)
+    }
+    pub fn name(&self, a: usize, b: usize) -> &'static str {
+        let n = self.ops.len();
+        self.names.get_or_init(|| (0..n * n).map(|i| &*Box::leak(format!("pair.{}>{}", self.ops[i / n], self.ops[i % n]).into_boxed_str())).collect())[a * n + b]
+    }
+}
+
 // ------------------------------------------------------------------------------------------------ panic capture
 
 thread_local! {
